@@ -41,8 +41,11 @@ class SetupPyWriter(DependencyWriter):
         diff = create_diff_from_tree(input_tree, output_tree)
 
         if not dry_run:
-            with open(self.path, "w", encoding="utf-8") as f:
-                f.write(output_tree.code)
+            try:
+                with open(self.path, "w", encoding="utf-8") as f:
+                    f.write(output_tree.code)
+            except Exception:
+                return None
 
         changes = self.build_changes(
             dependencies, fixed_line_number_strategy, codemod.line_num_changed
